@@ -23,6 +23,23 @@ func init() { RegisterCheck("C20", CheckC20) }
 
 type tagKey struct{}
 
+// plainReader implements io.ReadCloser and nothing else; it hands its content out in
+// a few chunks and yields between them.
+type plainReader struct {
+	r     *bytes.Reader
+	chunk int
+}
+
+func (p *plainReader) Read(b []byte) (int, error) {
+	if len(b) > p.chunk {
+		b = b[:p.chunk]
+	}
+	runtime.Gosched()
+	return p.r.Read(b)
+}
+
+func (p *plainReader) Close() error { return nil }
+
 type plannedCall struct {
 	tag     string
 	op      *Op
@@ -125,7 +142,9 @@ func newConcurrentInst(p *Pkg) *concurrentInst {
 				// a private copy with a fresh reader (the planned value is shared read-only)
 				cp := reflect.New(resp.Type()).Elem()
 				cp.Set(resp)
-				cp.FieldByName("Body").Set(reflect.ValueOf(io.NopCloser(bytes.NewReader(plan.respRaw))))
+				// (a reader that is nothing but a reader: no WriteTo, so io.Copy has to go through
+				// a buffer, as it does for a proxied upstream body, a pipe or a gzip stream)
+				cp.FieldByName("Body").Set(reflect.ValueOf(io.ReadCloser(&plainReader{r: bytes.NewReader(plan.respRaw), chunk: 1 + len(plan.respRaw)/3})))
 				resp = cp
 			}
 			return []reflect.Value{AsIface(resp, op.ResponseIface)}
